@@ -13,6 +13,7 @@ RULE = (
     "(Bourtsoulatze2019, Tung2022 Q and Q2, Kurka2020 feedback enc/dec, Yilmaz2023 NOMA, Yilmaz2024 WZ small) x image sizes {16,32,48,64} x batch sizes {1,2,5}: output shape = input "
     "shape, documented range, latent size = documented bandwidth ratio, and after loss.backward() through constraint + channel + decoder every encoder parameter has a finite, "
     "non-vanishing gradient. Distinct = (stage configuration, input seed) / (architecture, image size, batch size); non-trivial = random non-constant input."
+    " Added after the seeded-fault rounds: bandwidth-ratio formula for n=1..5 strided layers and formula-built encoders, grayscale / 4-channel DeepJSCC-Q pairs, forward/backward asymmetry kink guard of the finite-difference oracle."
 )
 ASSUMPTIONS = [
     "finite-difference comparison accepted at relative error <= 5e-3 (SNR paths round the noise power to float32, which floors the comparison near 1e-4); torch.gradcheck defaults would false-alarm",
